@@ -10,8 +10,13 @@
 (* step must be a sub-multiset of the block-wise prediction (BondOpsPure).    *)
 EXTENDS BondOpsPure, Ring, TLC, Json, IOUtils
 
+(* Two levels (harness/parallel.py): Strict demands the sweep of Canon.tla (one local factorization per site in order, bond   *)
+(* charges given by the closed forms, fixed point of a repeated sweep, no bond growth for orthonormalize); the properties   *)
+(* C01 / C13 / C02 are the result clauses of TEnd.  With Strict = FALSE the step events are removed by the harness and the  *)
+(* end record is marked hooks_missing.  Diagnostics of strict-only clauses start with "spec: ".                            *)
 Data == JsonDeserialize(IOEnv.TRACE_FILE)
 Tr == Data.traces
+Strict == IF "strict" \in DOMAIN Data THEN Data.strict ELSE TRUE
 VARIABLES tid, l, qD, pos, pc, zero, meta, nsteps
 tvars == <<tid, l, qD, pos, pc, zero, meta, nsteps>>
 Rec == Tr[tid][l]
@@ -72,13 +77,14 @@ ExactOK ==
         /\ ISum(Len(Rec.v_old), LAMBDA k : GAbs2(<<Rec.v_old[k][1], Rec.v_old[k][2]>>)) = Rec.nrm2      \* nrm^2 = ||v||^2
         /\ \A k \in DOMAIN Rec.v_old : <<Rec.v_new_scaled[k][1], Rec.v_new_scaled[k][2]>> = <<Rec.v_old[k][1], Rec.v_old[k][2]>>
 
-TEnd == /\ HasRec /\ Rec.ev = "end" /\ pc \in {"swept", "sweep"}
-        /\ (pc = "sweep" => Rec.hooks_missing /\ nsteps = 0)          \* without hooks only the result clauses are checked
+TEnd == /\ HasRec /\ Rec.ev = "end" /\ pc \in {"swept", "sweep", "pre"}
+        /\ (pc \in {"sweep", "pre"} => Rec.hooks_missing /\ nsteps = 0)          \* without hooks only the result clauses are checked
         /\ pc = "swept" => Rec.qD = qD                                  \* the object's charges are those of the local steps
         /\ Len(Rec.qD) = meta.L + 1
-        /\ \A b \in 1..(meta.L + 1) : Len(Rec.qD[b]) = Rec.dims[b] /\ Rec.dims[b] <= Len(meta.qD0[b])     \* NoGrowth, lengths
+        /\ \A b \in 1..(meta.L + 1) : Len(Rec.qD[b]) = Rec.dims[b]                                          \* C02: list lengths
+        /\ (Strict \/ meta.op = "compress") => \A b \in 1..(meta.L + 1) : Rec.dims[b] <= Len(meta.qD0[b])     \* NoGrowth (C13 for compress)
         /\ Rec.dims[1] = 1 /\ Rec.dims[meta.L + 1] = 1
-        /\ (meta.op = "ortho" /\ meta.pmode = meta.mode) => SameBags(Rec.qD, meta.qD0)                          \* Canon!Idempotent
+        /\ (Strict /\ meta.op = "ortho" /\ meta.pmode = meta.mode) => SameBags(Rec.qD, meta.qD0)                          \* Canon!Idempotent
         /\ (~Rec.is_zero) => (Rec.qD[1] = meta.qD0[1] /\ Rec.qD[meta.L + 1] = meta.qD0[meta.L + 1])       \* BoundaryOK
         /\ (pc = "swept" /\ zero) => Rec.is_zero                                                        \* dummy branch => zero state
         /\ Rec.nrm_nonneg /\ Rec.nrm_ok /\ Rec.state_ok /\ Rec.unit_ok /\ Rec.forms_ok /\ Rec.sparse_ok /\ Rec.types_ok
@@ -109,16 +115,16 @@ TNextTrace == /\ tid <= Len(Tr) /\ l > Len(Tr[tid]) /\ pc = "done"
 Diagnose ==
     IF Rec.ev = "raise" THEN Rec.exc
     ELSE IF Rec.ev = "step" THEN
-        (IF pc \notin {"sweep", "pre"} THEN "local factorization after the sweep was complete"
-         ELSE IF Rec.site # pos \/ Rec.dir # SweepDir THEN "sweep order: unexpected site or direction"
-         ELSE IF ~(Rec.iso_ok /\ Rec.sparse_ok /\ Rec.pair_ok) THEN "local step: isometry / sparsity / two-site product flag false"
-         ELSE "new bond charges exceed the block-wise prediction (or differ from it for QR)")
+        (IF pc \notin {"sweep", "pre"} THEN "spec: local factorization after the sweep was complete"
+         ELSE IF Rec.site # pos \/ Rec.dir # SweepDir THEN "spec: sweep order: unexpected site or direction"
+         ELSE IF ~(Rec.iso_ok /\ Rec.sparse_ok /\ Rec.pair_ok) THEN "spec: local step: isometry / sparsity / two-site product flag false"
+         ELSE "spec: new bond charges exceed the block-wise prediction (or differ from it for QR)")
     ELSE IF Rec.ev = "end" THEN
-        (IF pc = "sweep" /\ ~(Rec.hooks_missing /\ nsteps = 0) THEN "call returned before its sweep over the sites was complete"
-         ELSE IF pc = "swept" /\ Rec.qD # qD THEN "bond charges of the object differ from those of the local factorizations"
+        (IF pc \in {"sweep", "pre"} /\ ~(Rec.hooks_missing /\ nsteps = 0) THEN "spec: call returned before its sweep over the sites was complete"
+         ELSE IF pc = "swept" /\ Rec.qD # qD THEN "spec: bond charges of the object differ from those of the local factorizations"
          ELSE IF ~(\A b \in 1..(meta.L + 1) : Len(Rec.qD[b]) = Rec.dims[b]) THEN "length of a charge list differs from the bond dimension"
-         ELSE IF ~(\A b \in 1..(meta.L + 1) : Rec.dims[b] <= Len(meta.qD0[b])) THEN "a bond dimension grew"
-         ELSE IF meta.op = "ortho" /\ meta.pmode = meta.mode /\ ~SameBags(Rec.qD, meta.qD0) THEN "repeated sweep in the same direction changed the bond charges (not a fixed point)"
+         ELSE IF ~(\A b \in 1..(meta.L + 1) : Rec.dims[b] <= Len(meta.qD0[b])) THEN (IF meta.op = "compress" THEN "a bond dimension grew" ELSE "spec: a bond dimension grew")
+         ELSE IF meta.op = "ortho" /\ meta.pmode = meta.mode /\ ~SameBags(Rec.qD, meta.qD0) THEN "spec: repeated sweep in the same direction changed the bond charges (not a fixed point)"
          ELSE IF ~Rec.is_zero /\ ~(Rec.qD[1] = meta.qD0[1] /\ Rec.qD[meta.L + 1] = meta.qD0[meta.L + 1]) THEN "total charge of a non-zero state changed"
          ELSE IF ~Rec.nrm_nonneg THEN "returned factor negative"
          ELSE IF ~Rec.nrm_ok THEN "returned factor is not the norm of the original"
@@ -130,7 +136,7 @@ Diagnose ==
          ELSE IF ~Rec.types_ok THEN "container / dtype clause"
          ELSE IF meta.op = "compress" /\ ~(Rec.scale_ok /\ Rec.err_ok) THEN "compress: scale outside [sqrt(1-L tol), 1] or error identity violated"
          ELSE IF ~ExactOK THEN "exact instance: nrm^2 # ||v||^2 or nrm * new # old"
-         ELSE "zero-state bookkeeping")
+         ELSE "spec: zero-state bookkeeping")
     ELSE IF Rec.ev = "begin" THEN "a later call does not start from the charges / shape the previous call left behind"
     ELSE IF Rec.ev = "firstbond" THEN "first truncated bond does not keep the Schmidt values prescribed by the tolerance rule"
     ELSE IF Rec.ev = "from_vector" THEN "from_vector: error bound / types / shapes / exactness at tol = 0"
